@@ -408,6 +408,10 @@ func Apply(prev *Tables, db *sql.DB, changed map[string][]int64) (*Tables, error
 				}
 				delete(ix, rowid)
 			}
+		}
+		// second pass (a deleted row's rowid may have been reused by a row whose key another
+		// changed rowid held before: remove every old key first, then read)
+		for rowid := range seen {
 			if err := loadInto(t, tx, table, " WHERE rowid = ?", rowid); err != nil {
 				return nil, err
 			}
